@@ -2,7 +2,7 @@
 """tools/keep_refactor.py <worktree> <refactoring dir> <group> <name> [tier]
 A behaviour-preserving change produced by a sub-agent: apply to /repo, run the group's checks, revert; no check may raise an alarm.
 Kept under /verif/seeded/refactor/<name>/ with the verdict of every check."""
-import fcntl, json, os, shutil, subprocess, sys, time
+import json, os, shutil, subprocess, sys, time
 sys.path.insert(0, os.path.dirname(__file__))
 from refactor_prompt_groups import GROUPS
 wt, rdir, grp, name = sys.argv[1:5]
@@ -10,17 +10,16 @@ tier = sys.argv[5] if len(sys.argv) > 5 else "quick"
 def sh(cmd, cwd=None, timeout=3600):
     p = subprocess.run(cmd, shell=True, cwd=cwd, stdout=subprocess.PIPE, stderr=subprocess.STDOUT, text=True, timeout=timeout)
     return p.returncode, p.stdout
-_lock = open("/tmp/mut/repo.lock", "w")
-fcntl.flock(_lock, fcntl.LOCK_EX)
-assert sh("git diff --quiet", "/repo")[0] == 0, "/repo dirty"
-rc, out = sh("git apply %s/patch.diff" % rdir, "/repo")
+assert sh("git status --porcelain --untracked-files=no", wt)[1].strip() == "", "worktree dirty"
+rc, out = sh("git apply %s/patch.diff" % rdir, wt)
 if rc != 0:
     print("KEEP-FAIL patch does not apply:", out[:300]); sys.exit(1)
 res = {}
+outdir = wt.rstrip("/") + ".checkout"
 try:
     for pid in GROUPS[grp][0]:
         t1 = time.time()
-        rc_chk, cout = sh("timeout 3400 ./check %s --tier %s" % (pid, tier), "/verif", timeout=3500)
+        rc_chk, cout = sh("timeout 3400 env VERIF_REPO=%s VERIF_SCRATCH_OUT=%s ./check %s --tier %s" % (wt, outdir, pid, tier), "/verif", timeout=3500)
         lines = cout.splitlines()
         viol = [l for l in lines if l.startswith("VIOLATION")]
         first = ""
@@ -30,10 +29,18 @@ try:
         if rc_chk not in (0, 1):
             first = "\n".join(lines[-6:])[:600]
         res[pid] = {"rc": rc_chk, "violations": len(viol), "first": first, "secs": round(time.time() - t1, 1)}
-        print("  %s rc=%d violations=%d %s" % (pid, rc_chk, len(viol), first[:200]))
+        ev = os.path.join(outdir, "evidence", pid + ".json")
+        if os.path.exists(ev):
+            cov = json.load(open(ev))["coverage"]
+            conf = {k: v.get("status") for k, v in cov.items() if k.startswith("conformance_with") and isinstance(v, dict)}
+            if conf:
+                res[pid]["conformance"] = conf
+            if cov.get("controlled_legs"):
+                res[pid]["controlled_legs"] = cov["controlled_legs"]
+        print("  %s rc=%d violations=%d %s %s" % (pid, rc_chk, len(viol), res[pid].get("conformance", ""), first[:200]))
 finally:
-    sh("git checkout -- .", "/repo")
-    fcntl.flock(_lock, fcntl.LOCK_UN)
+    sh("git checkout -- .", wt)
+    shutil.rmtree(outdir, ignore_errors=True)
 dst = "/verif/seeded/refactor/%s" % name
 os.makedirs(dst, exist_ok=True)
 shutil.copy(os.path.join(rdir, "patch.diff"), dst)
